@@ -144,7 +144,24 @@ def run_check(tier, seed):
             ck.violation('layout-or-abi:' + (detail or name)[:40], name, {'fact': name, 'native': native})
     pr.handled = {n for n, m in pr.failed} if ck.violations else set()
     ck.inconclusive = [i for i in ck.inconclusive if not (ck.violations and i.startswith('counterexample without native confirmation'))]
-    ck.cov['functions_encoded'] = ['clockbound_now', 'ClockBoundClient::now', 'From<ShmError> for clockbound_err', 'From<ShmError> for ClockBoundError', 'From<ClockStatus> for clockbound_clock_status',
+    # ---- (v) the MEANING of a documented field: PROTOCOL.md calls the As-Of Timestamp a CLOCK_MONOTONIC_COARSE reading - the clock both
+    # client libraries compare it with.  The daemon's poller takes it from that clock (C12's poller half: clock id and order).
+    if not ck.violations:
+        try:
+            from .daemon_extract import load_dlib_program
+            from .daemon_poller import poller_order_half
+            prog_d, _w = load_dlib_program()
+            sub = Check('C17', tier, seed)
+            poller_order_half(sub, prog_d, seed)
+            for key, desc, path in sub.violations:
+                if 'clock id' in desc or 'CLOCK_MONOTONIC_COARSE' in desc:
+                    ck.violations.append(('as-of-clock:' + key, 'the As-Of Timestamp of the published record (PROTOCOL.md: a CLOCK_MONOTONIC_COARSE timestamp): ' + desc, path))
+            ck.inconclusive += ['as-of clock of the daemon: ' + i for i in sub.inconclusive]
+            for k_ in ('obligations', 'discharged', 'queries', 'evaluations', 'distinct_nontrivial'):
+                ck.cov[k_] = ck.cov.get(k_, 0) + sub.cov.get(k_, 0)
+        except EngineError as e:
+            ck.inconclusive.append('as-of clock of the daemon: %s' % e)
+    ck.cov['functions_encoded'] = ['run_clock_error_bound_poller (clock the as-of instant is read from)', 'clockbound_now', 'ClockBoundClient::now', 'From<ShmError> for clockbound_err', 'From<ShmError> for ClockBoundError', 'From<ClockStatus> for clockbound_clock_status',
                                    'ShmWriter::new / ShmReader::new pointer arithmetic', 'SHM_MAGIC', 'ShmWriter::write over a typed record (every field stored)']
     ck.cov['mir_dump_s'] = round(mir_wall, 1)
     ck.cov['stubs'] = ['ShmReader::snapshot and ClockErrorBound::now: environment inside the two wrappers (arbitrary Result values)', 'CBMC: the header only, not a C program using it']
